@@ -1697,6 +1697,11 @@ method or constructor of some type."""
                     prop.setter = method.name
                     continue
                 if getter_candidates != {} and method.name in getter_candidates:
+                    # A method that already is the getter of another property
+                    # is not an inferred candidate for this one
+                    if (getter_candidates[method.name] < 99
+                            and method.get_property not in (None, prop.name)):
+                        continue
                     found_getter_candidates.append(method.name)
                     if method.get_property is None:
                         method.get_property = prop.name
